@@ -686,7 +686,7 @@ pub fn run_level_b(
                 s
             });
             let mut status = None;
-            while started.elapsed() < Duration::from_secs(20) {
+            while started.elapsed() < Duration::from_secs(20) * crate::worker::watchdog_scale() {
                 match child.try_wait() {
                     Ok(Some(s)) => {
                         status = Some(s);
